@@ -234,24 +234,29 @@ def run_matrix_case(a):
             cfg_camel.setdefault("force", False)
         argv = [cli, "tauri-typegen", "generate"]
         have_file = bool(filed) or special == "file-says-false"
+        # every documented spelling of an option: -p X, --project-path X, --project-path=X
+        style = seed % 3
+
+        def opt(short, long, value):
+            return [short, value] if style == 0 else [long, value] if style == 1 else ["%s=%s" % (long, value)]
         if source == "-c" and have_file:
             json.dump(cfg_snake, open(os.path.join(app, "my.cfg.json"), "w"))
-            argv += ["-c", "my.cfg.json"]
+            argv += opt("-c", "--config", "my.cfg.json")
         elif have_file:
             json.dump({"productName": "x", "plugins": {"typegen": cfg_camel}}, open(os.path.join(app, "tauri.conf.json"), "w"))
         if "project" in flags:
-            argv += ["-p", "./proj_flag"]
+            argv += opt("-p", "--project-path", "./proj_flag")
         if "output" in flags:
-            argv += ["-o", "./out_flag"]
+            argv += opt("-o", "--output-path", "./out_flag")
         if "validation" in flags:
-            argv += ["-v", flag_valid]
+            argv += opt("-v", "--validation", flag_valid)
         if "verbose" in flags:
             argv.append("--verbose")
         # first run (never forced) to create a matching cache, then the observed run
-        first = [x for x in argv if x != "--force"]
+        first = list(argv)
         r1 = common.run(first, cwd=app, hash_seed=seed % 89)
         if "force" in flags:
-            argv.append("--force")
+            argv.append("-f" if style == 0 else "--force")
         out = outdirs[eff_output]
         viol = []
         label = "flags=%s file=%s source=%s%s" % ("+".join(sorted(flags)) or "-", "+".join(sorted(filed)) or "-", source, " " + special if special else "")
